@@ -1020,9 +1020,16 @@ def check_c13(ix, cfg):
         decs = st["strategy"]
         init = canon(mkvalue(st.get("initial", ["int", 0])))
 
-        def ret_of(a):
+        norm = bool((st.get("fserdes") or {}).get("norm"))
+
+        def ret_of(a, restored=True):
             beh = att[min(a, len(att)) - 1]
-            return canon(mkvalue(beh["v"])) if beh["do"] == "ret" else None
+            if beh["do"] != "ret":
+                return None
+            v = mkvalue(beh["v"])
+            if norm and restored:
+                v = json.loads(json.dumps(v))  # "as restored by the configured serialization"
+            return canon(v)
 
         checks = [e for e in ix.kinds["check-enter"] if e["pos"] == pos]
         enters = [e for e in ix.kinds["fn-enter"] if e["pos"] == pos and e["fn"] == "check"]
@@ -1079,7 +1086,9 @@ def check_c13(ix, cfg):
             if d["how"] == "ret" and first_stop is not None:
                 exp = ret_of(first_stop)
                 fails_before = any(att[min(k, len(att)) - 1]["do"] == "raise" for k in range(1, first_stop + 1))
-                if exp is not None and not fails_before and d["v"] != exp:
+                # the invocation that completes the condition hands the state over as the check returned it, a replay what
+                # the codec restores: both are "the last returned state"
+                if exp is not None and not fails_before and d["v"] != exp and d["v"] != ret_of(first_stop, restored=False):
                     out.append(V("C13", "wrong-result", f"{pos}: returned {json.dumps(d['v'])[:100]}, expected state of poll {first_stop} "
                                  f"{json.dumps(exp)[:100]}", pos=pos, seq=d["s1"]))
         for d in ix.deliveries.get(pos, []):
@@ -1536,6 +1545,15 @@ def check_c18(ix, cfg):
                 if bad:
                     out.append(V("C18", "malformed-error-object", f"invocation {inv}: {e['type']} {e['action']} for {e.get('name')} "
                                  f"carries an Error with {bad}", seq=e["s"]))
+        hx = next((e for e in ix.kinds["handler-exit"] if e["i"] == inv), None)
+        if hx is not None and oc == "SUCCEEDED":
+            # the handler returned a value: SUCCEEDED carries exactly that value as JSON; a value JSON cannot encode is FAILED
+            if not hx["serialisable"]:
+                out.append(V("C18", "unserialisable-result-succeeded", f"invocation {inv}: the handler returned a value that is not "
+                             f"JSON-serialisable, the invocation reported SUCCEEDED with {str(info['ret'].get('Result'))[:80]}"))
+            elif info["ret"].get("Result") not in ("", None) and not _same_json(info["ret"].get("Result"), hx):
+                out.append(V("C18", "result-altered", f"invocation {inv}: SUCCEEDED payload {str(info['ret'].get('Result'))[:80]} does not "
+                             "decode to the value the handler returned"))
         if r is not None:
             live = [n for n in r.get("live", []) if n.startswith("dex-handler")]
             if live:
